@@ -682,6 +682,18 @@ func enumReceipts(c *collector, s *subject, b *chain.Blk) {
 			r.Events = append(r.Events, &core.Event{From: felt.NewFromUint64[felt.Felt](0xabc), Keys: []felt.Felt{*one()}, Data: []felt.Felt{}})
 			recount(b.Block)
 		})
+		// the same with the header's event count left alone: the event commitment is computed from
+		// the receipts, whatever the header claims (a block whose header says "no events" included)
+		c.add("events/add(count untouched)", loc, func(b *chain.Blk) {
+			r := b.Block.Receipts[i]
+			r.Events = append(r.Events, &core.Event{From: felt.NewFromUint64[felt.Felt](0xabd), Keys: []felt.Felt{*one()}, Data: []felt.Felt{*one()}})
+		})
+		if len(rc.Events) > 0 {
+			c.add("events/drop-last(count untouched)", loc, func(b *chain.Blk) {
+				r := b.Block.Receipts[i]
+				r.Events = r.Events[:len(r.Events)-1]
+			})
+		}
 		if len(rc.Events) > 0 {
 			c.add("events/drop-last(count adjusted)", loc, func(b *chain.Blk) {
 				r := b.Block.Receipts[i]
